@@ -1051,10 +1051,93 @@ func propC07Ranges(c *Ctx) {
 			}
 		}
 		reg := NewRegion(fn) // the test and the attach step may live in a helper of the routine (groupLogs)
-		is := func(v ssa.Value, p *ssa.Parameter) bool { return stripNum(reg.Resolve(stripNum(v))) == ssa.Value(p) }
-		isUpper := func(v ssa.Value) bool {
-			b, ok := v.(*ssa.BinOp)
-			return ok && b.Op == token.ADD && ((is(b.X, pStart) && is(b.Y, pLimit)) || (is(b.Y, pStart) && is(b.X, pLimit)))
+		// the range carried as a small value with accessors (want := span{start, limit}; want.first(), want.end()):
+		// seen through the accessors and the literal (unfold.go)
+		deep := deepUnfold
+		isC := func(c cval, p *ssa.Parameter) bool {
+			if c.top() && stripNum(reg.Resolve(stripNum(c.v))) == ssa.Value(p) {
+				return true
+			}
+			u := deep(c)
+			return u.top() && stripNum(reg.Resolve(u.v)) == ssa.Value(p)
+		}
+		isUpperC := func(c cval) bool {
+			u := c
+			b, ok := stripNum(u.v).(*ssa.BinOp)
+			if !ok {
+				u = deep(c)
+				b, ok = u.v.(*ssa.BinOp)
+			}
+			return ok && b.Op == token.ADD && ((isC(u.with(b.X), pStart) && isC(u.with(b.Y), pLimit)) || (isC(u.with(b.Y), pStart) && isC(u.with(b.X), pLimit)))
+		}
+		is := func(v ssa.Value, p *ssa.Parameter) bool { return isC(cv(v), p) }
+		isUpper := func(v ssa.Value) bool { return isUpperC(cv(v)) }
+		// rangeHelper: call is `contains(n)` of such a value: true only when start <= n and n < start+limit
+		rangeHelper := func(call *ssa.Call, isNum func(ssa.Value) bool) bool {
+			h := staticCallee(call)
+			if h == nil || h.Blocks == nil || !isRepoFunc(h) || !isBoolType(call.Type()) {
+				return false
+			}
+			ni := -1
+			for i, a := range call.Call.Args {
+				if isNum(a) {
+					ni = i
+				}
+			}
+			if ni < 0 || ni >= len(h.Params) {
+				return false
+			}
+			np := h.Params[ni]
+			st := []*ssa.Call{call}
+			isN := func(v ssa.Value) bool { return stripNum(v) == ssa.Value(np) }
+			var lo, hi []Edge
+			var loCmp, hiCmp []ssa.Value
+			allInstrs(h, func(in ssa.Instruction) {
+				b, ok := in.(*ssa.BinOp)
+				if !ok || !isN(b.X) {
+					return
+				}
+				t, f := boolEdges(b)
+				switch {
+				case b.Op == token.GEQ && isC(cval{b.Y, st}, pStart):
+					lo = append(lo, t...)
+					loCmp = append(loCmp, b)
+				case b.Op == token.LSS && isC(cval{b.Y, st}, pStart):
+					lo = append(lo, f...)
+				case b.Op == token.LSS && isUpperC(cval{b.Y, st}):
+					hi = append(hi, t...)
+					hiCmp = append(hiCmp, b)
+				case b.Op == token.GEQ && isUpperC(cval{b.Y, st}):
+					hi = append(hi, f...)
+				}
+			})
+			if len(lo)+len(loCmp) == 0 || len(hi)+len(hiCmp) == 0 {
+				return false
+			}
+			for _, r := range returnsOf(h) {
+				for _, lf := range phiLeaves(returnValues(r)[0]) {
+					if k, isK := lf.Val.(*ssa.Const); isK && k.Value != nil && k.Value.String() == "false" {
+						continue
+					}
+					under := func(edges []Edge, cmps []ssa.Value) bool {
+						for _, cmpV := range cmps {
+							if lf.Val == cmpV {
+								return true // the answer is this very comparison
+							}
+						}
+						if lf.Pred != nil && lf.Phi != nil {
+							if edgeGuarded(h, lf.Pred, lf.Phi.Block(), edges) || (len(edges) > 0 && guardedByEdges(h, terminator(lf.Pred), edges)) {
+								return true
+							}
+						}
+						return len(edges) > 0 && guardedByEdges(h, r, edges)
+					}
+					if !under(lo, loCmp) || !under(hi, hiCmp) {
+						return false
+					}
+				}
+			}
+			return true
 		}
 		// blockNum values: conversions of a BlockNum field
 		isBlockNum := func(v ssa.Value) bool {
@@ -1083,6 +1166,12 @@ func propC07Ranges(c *Ctx) {
 					return (b.Op == token.GEQ || b.Op == token.GTR) && isBlockNum(b.X) && isUpper(b.Y)
 				})
 				lowOK, highOK = append(lowOK, lo...), append(highOK, hi...)
+				for _, ci := range callsIn(tf) {
+					if call, isCall := ci.(*ssa.Call); isCall && rangeHelper(call, isBlockNum) {
+						t, _ := boolEdges(call)
+						lowOK, highOK = append(lowOK, t...), append(highOK, t...)
+					}
+				}
 			}
 			n++
 			ok := len(lowOK) > 0 && len(highOK) > 0 && reg.Guarded(in, lowOK) && reg.Guarded(in, highOK)
